@@ -540,8 +540,18 @@ def register(reg):
       "totality of the data-dependent Python bodies of the 46 migration functions (loops over records, JSON parsing) and that the "
       "emitted list for a populated document has the same metadata schema actions as for the empty one; both are checked on random "
       "documents at every version (real create_migrations + real TableDataSet, compared with the compiled model), with every "
-      "free-text metadata column swept with wrong-shape JSON, edge numbers, deep nesting and non-JSON text.",
-      "Version-v documents = schema_version0() + registered migrations 1..v, then populated; typed cells in database representation "
+      "free-text metadata column swept with wrong-shape JSON, edge numbers, deep nesting and non-JSON text. VARIANT START SHAPES "
+      "(direct oracle only, NOT covered by migrate_schema_reaches_current, whose generated obligations hold the linear-history "
+      "start schema of each version only): documents of one version number that already have / still lack what a guarded "
+      "migration step adds (if-column/table-not-in and maybe_add_column: m1 version-0 documents without _grist_Attachments / "
+      "_grist_TabItems / schemaVersion, m7 documents that already have summarySourceTable / summarySourceCol, m39 the two shipped "
+      "flavours of version 38 - _grist_Triggers.memo/label/enabled present and _grist_Views_section.description absent, or the "
+      "reverse - plus any guard an AST scan of migrations.py finds); every non-empty subset of a migration's guard units is "
+      "toggled at the version just before it on every run and at earlier versions, with random mixes across migrations; for "
+      "each the real chain must succeed, reach schema.py column by column, keep user tables, and re-migrating the result must "
+      "emit only the schemaVersion update and change nothing (the applied actions are also replayed on the TableDataSet model).",
+      "Version-v documents = schema_version0() + registered migrations 1..v, then populated (variant shapes: guard units toggled "
+      "before populating; a unit = the columns one guarded block adds, atomic; toggled-in columns get schema.py's col_info); typed cells in database representation "
       "(RefList/ChoiceList None or JSON text), referentially consistent metadata, well-formed identifiers/types; schema equality is "
       "Python dict equality (column order legitimately differs); documented user-table effects of old migrations (m3/m7/m10/m17/m28/"
       "m31) are allowed, m17's Image conversion is checked against its documented rule; col_info abstracted to (type,isFormula,"
